@@ -5,7 +5,7 @@ From Cursors Require Import Model Base Spec Local Splice EditInsert EditReplace 
 Import ListNotations.
 
 (** side condition of one forwarding step *)
-Definition edit_ok (fixed : bool) (e : edit) (t : tree) (c : cursor) : Prop :=
+Definition edit_ok (fixed : variant) (e : edit) (t : tree) (c : cursor) : Prop :=
   match e with
   | EWrap _ _ _ _ _ _ _ => wrap_pre fixed e c
   | EMove _ _ _ _ _ _ _ => move_ok e t c
@@ -40,7 +40,7 @@ Qed.
 
 (** hypotheses along a chain: every edit is valid on the tree it is applied to, its side condition holds
     for the cursor as forwarded so far, and the forwarded cursor has not collapsed to an empty block *)
-Fixpoint chain_pre (fixed : bool) (es : list edit) (t : tree) (c : cursor) : Prop :=
+Fixpoint chain_pre (fixed : variant) (es : list edit) (t : tree) (c : cursor) : Prop :=
   match es with
   | [] => True
   | e :: es' =>
@@ -51,7 +51,7 @@ Fixpoint chain_pre (fixed : bool) (es : list edit) (t : tree) (c : cursor) : Pro
 
 (** what the chain theorem delivers: every intermediate cursor is valid in its intermediate tree and
     denotes the same statements (modulo the step's own edit, for enclosing blocks) as the one before *)
-Fixpoint chain_same (fixed : bool) (es : list edit) (t : tree) (c : cursor) (t' : tree) (c' : cursor) : Prop :=
+Fixpoint chain_same (fixed : variant) (es : list edit) (t : tree) (c : cursor) (t' : tree) (c' : cursor) : Prop :=
   match es with
   | [] => t' = t /\ c' = c
   | e :: es' =>
